@@ -233,6 +233,110 @@ def fresh(run, name, mode):
         run.violation(f"C03|{name}|first-call|{mode.split('-')[0]}|differs-from-second", f"{name}: first and second call disagree", dict(w, first=got, second=got2), rp)
 
 
+TRUE_WORDS = ("1", "true", "TRUE", "True", "t", "yes", "Yes", "y", "on", "ON", "enable", "enabled", "Enabled")
+FALSE_WORDS = ("", "0", "false", "FALSE", "False", "f", "no", "No", "n", "off", "OFF", "disable", "disabled", "Disabled")
+
+
+def switching(run, name, order_seed, builtin_word):
+    """a fresh process, NO availability query beforehand: ordinary first use (default backend), then set_backend() of every
+    backend name in a generated order - including ones that are not available (must raise MissingBackendError and leave
+    the hasher exactly as it was) - and after every step every ident / variant still hashes to the reference value.
+    PASSLIB_BUILTIN_BCRYPT carries `builtin_word` (any documented boolean spelling)."""
+    import passlib.exc as X
+    from checks.c02 import norm_settings, ref_for
+    rng = run.rng(f"switching:{name}:{order_seed}:{builtin_word}")
+    h = H.get(name)
+    own = owner_name(name)
+    sup = host_supports()
+    if own == "bcrypt":
+        sup[(own, "builtin")] = builtin_word in TRUE_WORDS
+    variants = []
+    base = {}
+    if "rounds" in h.setting_kwds:
+        base["rounds"] = H.rounds_values(h, "quick")[0]
+    idents = list(getattr(getattr(h, "wrapped", h), "ident_values", None) or [None]) if H.base_name(h) == "bcrypt" else [None]
+    for ident in idents:
+        st = dict(base, salt=H.gen_salt(h, rng))
+        if ident:
+            st["ident"] = ident.strip("$")
+        try:
+            H.apply(h, st)
+        except (ValueError, TypeError):
+            continue            # (an ident the hasher recognises but does not produce, e.g. 2x)
+        for pw in (H.pw_bytes(rng, 9).decode(), H.pw_text(rng, 4), H.pw_bytes(rng, 73).decode()):
+            try:
+                want = ref_for(name, pw.encode(), norm_settings(name, st), {})
+            except Exception:
+                want = None
+            variants.append((st, pw, want))
+    w0 = dict(name=name, builtin_env=builtin_word)
+
+    def probe(step, log):
+        """every variant against the reference; returns False after the first violation"""
+        for st, pw, want in variants:
+            try:
+                got = H.apply(h, st).hash(pw)
+            except Exception as e:
+                run.violation(f"C03|{own}|switching|{step}|hash-raises|{type(e).__name__}", f"{name}: after {log} hashing ({st.get('ident', 'default')} variant) raised {type(e).__name__}: {str(e)[:100]}",
+                              dict(w0, history=log, settings=st, password=pw))
+                return False
+            run.count("switching_probes")
+            if want is not None and got != want:
+                run.violation(f"C03|{own}|switching|{step}|digest-differs-from-reference", f"{name}: after {log} the {st.get('ident', 'default')} variant hashes to {got!r}, reference {want!r}",
+                              dict(w0, history=log, settings=st, password=pw))
+                return False
+        return True
+    log = ["first-use"]
+    if not probe("first-use", log):
+        return
+    try:
+        current = h.get_backend()
+    except Exception as e:
+        run.violation(f"C03|{own}|switching|get_backend|{type(e).__name__}", f"{name}: get_backend() after first use raised {e}", w0)
+        return
+    order = list(h.backends) + ["no_such_backend"]
+    rng.shuffle(order)
+    order = order + [order[0]]
+    for b in order:
+        expected = sup.get((own, b), False)
+        try:
+            h.set_backend(b)
+            outcome = "selected"
+        except X.MissingBackendError:
+            outcome = "missing"
+        except ValueError as e:
+            outcome = "unknown-name" if b == "no_such_backend" else f"ValueError:{str(e)[:60]}"
+        except Exception as e:
+            outcome = f"{type(e).__name__}:{str(e)[:60]}"
+        log.append(f"set_backend({b})->{outcome}")
+        run.case((name, "switching", b, outcome, builtin_word in TRUE_WORDS), dict(w0, history=list(log)))
+        run.count("switching_steps")
+        if b == "no_such_backend":
+            if outcome not in ("unknown-name", "missing"):
+                run.violation(f"C03|{own}|switching|unknown-backend-name|{outcome.split(':')[0]}", f"{name}: set_backend('no_such_backend') -> {outcome}", dict(w0, history=log))
+        elif expected and outcome != "selected":
+            run.violation(f"C03|{own}|{b}|switching|supported-backend-not-selectable|{outcome.split(':')[0]}",
+                          f"{name}: the host supports backend {b!r} (PASSLIB_BUILTIN_BCRYPT={builtin_word!r}) but set_backend -> {outcome}", dict(w0, history=log))
+        elif not expected and outcome not in ("missing",) and not (outcome == "selected" and b == "builtin" and own != "bcrypt"):
+            if outcome != "selected":
+                run.violation(f"C03|{own}|{b}|switching|unavailable-backend|{outcome.split(':')[0]}", f"{name}: set_backend({b!r}) of an unavailable backend -> {outcome} (MissingBackendError expected)", dict(w0, history=log))
+        if outcome == "selected":
+            current = b
+            run.count("switching_selected")
+        else:
+            run.count("switching_refused")
+        # the hasher keeps working and names the backend last selected successfully
+        try:
+            now = h.get_backend()
+        except Exception as e:
+            now = f"EXC:{type(e).__name__}"
+        if now != current:
+            run.violation(f"C03|{own}|switching|get_backend-after-{'failed' if outcome != 'selected' else 'successful'}-select", f"{name}: after {log} get_backend() = {now!r}, expected {current!r}", dict(w0, history=log))
+            return
+        if not probe("after-failed-select" if outcome != "selected" else f"under-{b}", log):
+            return
+
+
 def ledger(run, seq_seed, length):
     """set_backend / has_backend sequences across hashers: the outputs of every hasher stay the same (all backends
     agree, queries are read-only); the only admitted change is the documented refusal of non-UTF-8 bytes by a
@@ -322,6 +426,18 @@ def body(run):
     # the default environment (builtin bcrypt not enabled): first calls again
     run.parallel("checks.c03", "fresh", [dict(name=n, mode="hash-text") for n in ("bcrypt", "bcrypt_sha256", "django_bcrypt_sha256", "ldap_bcrypt")],
                  timeout=600, env={"PASSLIB_BUILTIN_BCRYPT": ""})
+    # switching sequences without prior availability queries, under every documented spelling of the builtin-bcrypt switch
+    words = list(TRUE_WORDS[:3] + FALSE_WORDS[:2]) if run.tier == "quick" else list(TRUE_WORDS + FALSE_WORDS)
+    by_env = {}
+    for i, n in enumerate(MULTI):
+        fam = owner_name(n) == "bcrypt"
+        for j, wd in enumerate(words if fam else [""]):
+            by_env.setdefault(wd, []).append(dict(name=n, order_seed=(i + j) % 3 if run.tier == "quick" else j, builtin_word=wd))
+    for wd, al in by_env.items():
+        run.parallel("checks.c03", "switching", al, timeout=900 if run.tier == "quick" else 3600, env={"PASSLIB_BUILTIN_BCRYPT": wd})
+    run.require("switching_steps", 60)
+    run.require("switching_refused", 10)
+    run.require("switching_probes", 300)
     run.note("scrypt: third-party 'scrypt' package backend not installed on this host - not exercised")
     for n in MULTI:
         run.require(f"pair:{n}", 2)
